@@ -323,6 +323,38 @@ where
 }
 
 /// (L8) sort comparators: total preorder, value order on non-nulls, nulls last in both directions
+/// (L9) the cast of a value *into the null convention of another type* (`S::inner_cast(u)`, `u.into_cast::<S>()`:
+/// U for a plain S, Option<U> for an optional S) keeps the value and keeps a null a null
+fn inner_cast_laws<S, U>(t: &mut Tally, sname: &str, uname: &str, uvals: Vec<U>, show: fn(&U) -> String, eq: fn(&U, &U) -> bool)
+where
+    S: IsNone,
+    U: IsNone<Inner = U> + Clone + 'static,
+    S::Inner: Cast<U>,
+    S::Cast<U>: Clone,
+{
+    use tevec::prelude::IntoCast;
+    t.ctx.fam("laws").states += uvals.len() as u64;
+    t.ctx.states += uvals.len() as u64;
+    for u in uvals {
+        let us = show(&u);
+        let u1 = u.clone();
+        t.truth(
+            "L9 inner_cast / into_cast keep the value and keep a null a null",
+            None,
+            &format!("{uname} into the convention of {sname}"),
+            us,
+            catch(move || {
+                let r = S::inner_cast::<U>(u1.clone());
+                let r2 = u1.clone().into_cast::<S>();
+                let null = u1.is_none();
+                let val_ok = |r: &S::Cast<U>| if null { r.clone().to_opt().is_none() } else { r.clone().to_opt().map_or(false, |v| eq(&v, &u1)) };
+                r.is_none() == null && r2.is_none() == null && val_ok(&r) && val_ok(&r2)
+            }),
+            "is_none preserved, to_opt() == Some(value) for a non-null value",
+        );
+    }
+}
+
 fn order_laws<T>(t: &mut Tally, name: &str, vals: &[T], lt: fn(&T, &T) -> Option<Ordering>, show: fn(&T) -> String)
 where
     T: IsNone + Clone,
@@ -478,6 +510,37 @@ fn run_all(ctx: &mut Ctx) {
     // the remaining IsNone impl: a Vec as an element (empty = null)
     null_laws::<Vec<i32>>(&mut t, "Vec<i32>", vec![vec![], vec![0], vec![1, 2]], true, |x| format!("{x:?}"), |a, b| a == b);
     vabs_laws(&mut t);
+    // (L9) casts into the null convention of another type
+    macro_rules! l9 {
+        ($S:ty, $sn:expr) => {
+            inner_cast_laws::<$S, f64>(&mut t, $sn, "f64", <f64 as Vals>::vals(), |x| x.show(), |a, b| a.same(b));
+            inner_cast_laws::<$S, f32>(&mut t, $sn, "f32", <f32 as Vals>::vals(), |x| x.show(), |a, b| a.same(b));
+            inner_cast_laws::<$S, i32>(&mut t, $sn, "i32", <i32 as Vals>::vals(), |x| x.show(), |a, b| a.same(b));
+            inner_cast_laws::<$S, i64>(&mut t, $sn, "i64", <i64 as Vals>::vals(), |x| x.show(), |a, b| a.same(b));
+            inner_cast_laws::<$S, usize>(&mut t, $sn, "usize", <usize as Vals>::vals(), |x| x.show(), |a, b| a.same(b));
+            inner_cast_laws::<$S, String>(&mut t, $sn, "String", ["0", "1", "None", "x"].iter().map(|s| s.to_string()).collect(), |x| x.show(), |a, b| a == b);
+        };
+    }
+    l9!(f64, "f64");
+    l9!(f32, "f32");
+    l9!(i32, "i32");
+    l9!(i64, "i64");
+    l9!(usize, "usize");
+    l9!(Option<f64>, "Option<f64>");
+    l9!(Option<f32>, "Option<f32>");
+    l9!(Option<i32>, "Option<i32>");
+    l9!(Option<i64>, "Option<i64>");
+    l9!(Option<usize>, "Option<usize>");
+    {
+        let dts: Vec<DateTime<Nanosecond>> = tv.iter().map(|v| DateTime::new(*v)).collect();
+        inner_cast_laws::<i64, DateTime<Nanosecond>>(&mut t, "i64", "DateTime<ns>", dts.clone(), |x| x.show(), |a, b| a.same(b));
+        inner_cast_laws::<Option<i64>, DateTime<Nanosecond>>(&mut t, "Option<i64>", "DateTime<ns>", dts.clone(), |x| x.show(), |a, b| a.same(b));
+        inner_cast_laws::<DateTime<Nanosecond>, DateTime<Nanosecond>>(&mut t, "DateTime<ns>", "DateTime<ns>", dts, |x| x.show(), |a, b| a.same(b));
+        let mut tds: Vec<TimeDelta> = ["0s", "1s", "-1s", "1mo"].iter().map(|s| TimeDelta::parse(s).unwrap()).collect();
+        tds.push(TimeDelta::nat());
+        inner_cast_laws::<Option<i64>, TimeDelta>(&mut t, "Option<i64>", "TimeDelta", tds.clone(), |x| x.show(), |a, b| a == b);
+        inner_cast_laws::<TimeDelta, TimeDelta>(&mut t, "TimeDelta", "TimeDelta", tds, |x| x.show(), |a, b| a == b);
+    }
     // (L8) comparators
     macro_rules! ol {
         ($T:ty) => {
